@@ -453,7 +453,7 @@ func DefaultTreeGen(r *Rng) *TreeGen {
 		EncPairs: [][]string{{"\""}, {"[", "]"}, {"<", ">"}, {"'"}},
 		Leaves:   []string{"str", "str", "int", "bool", "float"},
 		Strings:  []string{"a", "bc", "x y", "", "é", " pad ", "a\tb", "日本", "k", "cn", "uid"},
-		CondPct:  20, StackPct: 30, Aliases: []string{""}, CapPct: 0, MutexPct: 0, BadOpPct: 10, UserOpPct: 15}
+		CondPct:  20, StackPct: 30, Aliases: []string{""}, CapPct: 0, MutexPct: 15, BadOpPct: 10, UserOpPct: 15}
 }
 
 func (g *TreeGen) pick(l []string) string { return l[g.R.Intn(len(l))] }
